@@ -18,6 +18,7 @@ pub mod c13;
 pub mod c14;
 pub mod c15;
 pub mod c16;
+pub mod c17;
 pub mod c18;
 pub mod probe;
 
@@ -36,7 +37,7 @@ pub struct Entry {
 }
 
 pub fn all() -> Vec<Entry> {
-    vec![c01::entry(), c02::entry(), c03::entry(), c04::entry(), c05::entry(), c06::entry(), c07::entry(), c08::entry(), c11::entry(), c12::entry(), c13::entry(), c14::entry(), c15::entry(), c16::entry(), c18::entry()]
+    vec![c01::entry(), c02::entry(), c03::entry(), c04::entry(), c05::entry(), c06::entry(), c07::entry(), c08::entry(), c11::entry(), c12::entry(), c13::entry(), c14::entry(), c15::entry(), c16::entry(), c17::entry(), c18::entry()]
 }
 
 pub fn lookup(id: &str) -> Option<Entry> {
